@@ -2362,25 +2362,34 @@ class DiskObjectStore(PackBasedObjectStore):
             )
 
         fd, path = tempfile.mkstemp(dir=self.path, prefix="tmp_pack_")
-        with os.fdopen(fd, "w+b") as f:
-            os.chmod(path, PACK_MODE)
-            indexer = PackIndexer(
-                f,
-                self.object_format.hash_func,
-                resolve_ext_ref=self.get_raw,
-            )
-            copier = PackStreamCopier(
-                self.object_format.hash_func,
-                read_all,
-                read_some,
-                f,
-                delta_iter=indexer,  # type: ignore[arg-type]
-            )
-            copier.verify(progress=progress)
-            entries, ext_refs = self._index_pack(
-                indexer, len(copier), progress=progress
-            )
-            return self._complete_pack(f, path, entries, ext_refs, progress=progress)
+        try:
+            with os.fdopen(fd, "w+b") as f:
+                os.chmod(path, PACK_MODE)
+                indexer = PackIndexer(
+                    f,
+                    self.object_format.hash_func,
+                    resolve_ext_ref=self.get_raw,
+                )
+                copier = PackStreamCopier(
+                    self.object_format.hash_func,
+                    read_all,
+                    read_some,
+                    f,
+                    delta_iter=indexer,  # type: ignore[arg-type]
+                )
+                copier.verify(progress=progress)
+                entries, ext_refs = self._index_pack(
+                    indexer, len(copier), progress=progress
+                )
+                return self._complete_pack(
+                    f, path, entries, ext_refs, progress=progress
+                )
+        except BaseException:
+            # A rejected pack leaves nothing behind. On success the temporary
+            # file has been renamed into the pack directory.
+            with suppress(FileNotFoundError):
+                os.remove(path)
+            raise
 
     def add_pack(
         self,
@@ -2405,13 +2414,21 @@ class DiskObjectStore(PackBasedObjectStore):
                 # Scope the mapping to indexing: _complete_pack writes to and
                 # renames this same file, which a live mapping blocks on
                 # Windows. PackData.close() leaves f open for it to finish.
-                with PackData(path, file=f, object_format=self.object_format) as pd:
-                    indexer = PackIndexer.for_pack_data(
-                        pd,
-                        resolve_ext_ref=self.get_raw,
-                    )
-                    entries, ext_refs = self._index_pack(indexer, len(pd))  # type: ignore[arg-type]
-                return self._complete_pack(f, path, entries, ext_refs)
+                try:
+                    with PackData(path, file=f, object_format=self.object_format) as pd:
+                        indexer = PackIndexer.for_pack_data(
+                            pd,
+                            resolve_ext_ref=self.get_raw,
+                        )
+                        entries, ext_refs = self._index_pack(indexer, len(pd))  # type: ignore[arg-type]
+                    return self._complete_pack(f, path, entries, ext_refs)
+                except BaseException:
+                    # A rejected pack leaves nothing behind. On success the
+                    # temporary file has been renamed into place.
+                    f.close()
+                    with suppress(FileNotFoundError):
+                        os.remove(path)
+                    raise
             else:
                 f.close()
                 os.remove(path)
